@@ -325,8 +325,11 @@ def check_more_pins(src: str) -> None:
     app = _stmts(find_function(mod, "append_files", cls="Transaction"))
     want = ["if not _statistics_computed_here: files = [self._with_verified_bounds(f, table_schema) for f in files]",
             "self._operations.append({'type': 'append_files', 'files': files})", "return self"]
-    if app[-3:] != want:
-        raise Unsupported(f"append_files: queueing changed (bounds of pre-built files must be verified first): {app[-3:]}")
+    # between the verification of the bounds and the queueing only the GC protection of the adopted files may stand
+    # (F-C06b repair: marker registration + refusal while a collection run is announced; judged by C06)
+    tail = [x for x in app[-4:] if x != "self._protect_adopted_files(files)"][-3:]
+    if tail != want:
+        raise Unsupported(f"append_files: queueing changed (bounds of pre-built files must be verified first): {app[-4:]}")
     app_data = _u(find_function(mod, "append_data", cls="Transaction"))
     if "else: Schema(schema_id=schema.schema_id, fields=schema.fields) self._validate_schema_against_table(schema)" not in app_data:
         raise Unsupported("append_data no longer re-validates the schema argument object (Schema(...)) before comparing it with the table's")
